@@ -215,6 +215,120 @@ let nownership h a pi : (int * int) list =
   List.sort compare (Hashtbl.fold (fun d k acc -> (d, k) :: acc) t [])
 let npaths_with_lines h = List.filter (fun pi -> Array.length h.npaths.(pi) > 0) (List.init (Array.length h.npaths) (fun i -> i))
 
+(* ---------- path events (kinds *-pathdel) ----------
+   (rpd (names (id name)...) (events (commit id name|-)...)): the line sequences of rhist are keyed by FILE IDENTITY; an identity
+   appears in the tree of commit c under  nwhere c  (absent before its first birth in the ancestry, then its initial name, then what
+   its latest event in the ancestry of c says).  npd_ok = the domain conditions D1-D3 of harness/cmd/c01/pathdel.go and of
+   Burndown/PathDel.v (conflict_free_pd; the extracted function is compared with this one on every case without renames). *)
+type npd = {
+  pd_name0 : string array;                    (* identity index -> initial name *)
+  pd_events : (int * int * string) list;      (* commit, identity index, new name ("" = deleted) *)
+}
+let npd_of_sx (s : sx) (ids : string list) : npd =
+  let name0 = Array.of_list (List.map (fun id ->
+    let e = List.find_opt (fun x -> match x with L [A i; _] -> i = id | _ -> false) (args (field "names" s)) in
+    match e with Some (L [_; A n]) -> n | _ -> id) ids) in
+  let rec idx x i = function [] -> failwith ("rpd: unknown identity " ^ x) | y :: r -> if x = y then i else idx x (i + 1) r in
+  { pd_name0 = name0;
+    pd_events = List.map (fun e -> match e with
+      | L [c; A id; A n] -> (int_of_sx c, idx id 0 ids, (if n = "-" then "" else n))
+      | _ -> failwith "rpd event") (args (field "events" s)) }
+let nborn_in (h : nhist) a pi c = Array.exists (fun l -> nanc a c l.nl_born) h.npaths.(pi)
+let nwhere (h : nhist) a (pd : npd) pi c : string =
+  if not (nborn_in h a pi c) then "" else begin
+    let best = ref (-1) and name = ref pd.pd_name0.(pi) in
+    List.iter (fun (d, i, n) -> if i = pi && nanc a c d && d > !best then (best := d; name := n)) pd.pd_events;
+    !name end
+let nalive_at a c (l : nline) = nanc a c l.nl_born && not (l.nl_killer >= 0 && nanc a c l.nl_killer)
+let npd_ok (h : nhist) a (pd : npd) : bool =
+  let ok = ref true in
+  let comparable x y = nanc a x y || nanc a y x in
+  List.iter (fun (d, pi, n) ->
+    if not (d >= 0 && d < h.nn && pi >= 0 && pi < Array.length h.npaths) then ok := false
+    else begin
+      (match h.nparents.(d) with
+       | [p] ->
+           if nwhere h a pd pi p = "" then ok := false;
+           Array.iter (fun l ->
+             if l.nl_born = d then ok := false;
+             (* D2: births and kills of the file are comparable with the event *)
+             if not (comparable d l.nl_born) then ok := false;
+             if l.nl_killer >= 0 && not (comparable d l.nl_killer) then ok := false;
+             if n = "" then begin
+               (* D1: a deletion kills exactly the lines alive in the parent; nothing of the file happens later *)
+               if nalive_at a p l && l.nl_killer <> d then ok := false;
+               if not (nanc a d l.nl_born) then ok := false;
+               if l.nl_killer >= 0 && not (nanc a d l.nl_killer) then ok := false
+             end else begin
+               (* an exact rename: the commit neither kills nor adds a line of the file, which is not empty *)
+               if l.nl_killer = d then ok := false
+             end) h.npaths.(pi);
+           if n <> "" && not (Array.exists (fun l -> nalive_at a p l) h.npaths.(pi)) then ok := false
+       | _ -> ok := false);
+      List.iter (fun (d2, pi2, _) -> if pi2 = pi && d2 <> d && not (comparable d d2) then ok := false;
+                                     if pi2 = pi && d2 = d && not (List.length (List.filter (fun (x, y, _) -> x = d && y = pi) pd.pd_events) = 1) then ok := false) pd.pd_events
+    end) pd.pd_events;
+  (* D3 and "no line lives in an absent file" *)
+  for c = 0 to h.nn - 1 do
+    let seen = Hashtbl.create 8 in
+    Array.iteri (fun pi p ->
+      let w = nwhere h a pd pi c in
+      if w = "" then (if Array.exists (fun l -> nalive_at a c l) p then ok := false)
+      else if Hashtbl.mem seen w then ok := false else Hashtbl.add seen w ()) h.npaths
+  done;
+  !ok
+
+(* The mechanism of the known finding, decided on the executed plan: walk the plan with the set of names whose flag
+   deletions[name] is set (handleDeletion sets it; handleInsertion and handleRename clear it for the new name; the map is shared
+   by all branches) and report whether some merge-mode replay (the same commit in the neighbouring commit action) deletes a path
+   whose flag is not set: that replay books the deletion of the lines a second time, at tick 0. *)
+let nflag_unset_hit (h : nhist) a (pd : npd) (plan : action list) : bool =
+  let acts = Array.of_list (List.filter (function AHibernate _ | ABoot _ -> false | _ -> true) plan) in
+  let n = Array.length acts in
+  let commit_at i = if i >= 0 && i < n then (match acts.(i) with ACommit (c, _) -> Some (int_of_z c) | _ -> None) else None in
+  let last : (int, int option) Hashtbl.t = Hashtbl.create 8 in
+  let flags : (string, unit) Hashtbl.t = Hashtbl.create 8 in
+  let hit = ref false in
+  let npaths = Array.length h.npaths in
+  Array.iteri (fun i act ->
+    match act with
+    | AEmerge b -> Hashtbl.replace last (int_of_z b) None
+    | AFork (b, bs) ->
+        let l = (try Hashtbl.find last (int_of_z b) with Not_found -> None) in
+        List.iter (fun b' -> Hashtbl.replace last (int_of_z b') l) bs
+    | ADelete b -> Hashtbl.remove last (int_of_z b)
+    | ACommit (cz, bz) ->
+        let c = int_of_z cz and b = int_of_z bz in
+        if c >= 0 && c < h.nn then begin
+          let merge_mode = (commit_at (i - 1) = Some c) || (commit_at (i + 1) = Some c) in
+          let old_name pi = (match (try Hashtbl.find last b with Not_found -> None) with
+                             | None -> "" | Some o -> nwhere h a pd pi o) in
+          let olds = Array.init npaths old_name and news = Array.init npaths (fun pi -> nwhere h a pd pi c) in
+          let in_arr x arr = x <> "" && Array.exists (fun y -> y = x) arr in
+          let lasto = (try Hashtbl.find last b with Not_found -> None) in
+          (* a moved file is followed only when its content is unchanged (RenameAnalysis pairs equal hashes; the blobs of these
+             histories are too small or too different for its similarity stage): otherwise the step is a deletion + an insertion *)
+          let same_content pi = (match lasto with
+            | None -> false
+            | Some o -> Array.for_all (fun l -> nalive_at a o l = nalive_at a c l) h.npaths.(pi)) in
+          for pi = 0 to npaths - 1 do
+            let o = olds.(pi) and w = news.(pi) in
+            let moved = o <> "" && w <> "" && o <> w in
+            (* ... and only onto a name that is free in the old tree (else the tree diff says: w modified, o deleted) *)
+            if o <> "" && (w = "" || (moved && (not (same_content pi) || in_arr w olds))) && not (in_arr o news) then begin
+              (* the path o is deleted *)
+              if merge_mode && not (Hashtbl.mem flags o) then hit := true;
+              Hashtbl.replace flags o ()
+            end;
+            if w <> "" && w <> o && not (in_arr w olds) then
+              (* inserted, or renamed to w *)
+              Hashtbl.remove flags w
+          done;
+          Hashtbl.replace last b (Some c)
+        end
+    | _ -> ()) acts;
+  !hit
+
 (* what the judgement of one history case needs, from the extracted oracle or from the native one *)
 type truth = {
   t_cfree : bool; t_hasline : bool; t_single : bool; t_n : int;
@@ -279,14 +393,44 @@ let hist_case id (c : sx) =
   let flag name def = match field_opt name c with Some f -> bool_of_sx (List.hd (args f)) | None -> def in
   let scale = flag "scale" false in
   let model = flag "model" true in
-  let (nh, names) = nhist_of_sx (field "rhist" c) in
+  let (nh, ids) = nhist_of_sx (field "rhist" c) in
   let ntr = native_truth nh g s in
+  (* path events (kinds *-pathdel): the sequences are keyed by file identity, the outputs and the model by path NAME *)
+  let pdo = match field_opt "rpd" c with Some x -> Some (npd_of_sx x ids) | None -> None in
+  let a0 = match pdo with Some _ -> nancs nh | None -> [||] in
+  let has_merge = Array.exists (fun ps -> List.length ps > 1) nh.nparents in
+  let has_events = (match pdo with Some pd -> pd.pd_events <> [] | None -> false) in
+  let has_renames = (match pdo with Some pd -> List.exists (fun (_, _, n) -> n <> "") pd.pd_events | None -> false) in
+  (* the known finding (marker [path-deleted-on-a-branch]): the executed plan replays, in merge mode, the deletion of a path
+     whose flag deletions[name] is not set at that moment (nflag_unset_hit below); decided once the plan is known *)
+  let known_shape = ref false in
+  let propfail id m = propfail id (if !known_shape then "[path-deleted-on-a-branch] " ^ m else m) in
+  let names = match pdo with
+    | None -> ids
+    | Some pd ->
+        let all = Array.to_list pd.pd_name0 @ List.filter_map (fun (_, _, n) -> if n = "" then None else Some n) pd.pd_events in
+        List.rev (List.fold_left (fun acc n -> if List.mem n acc then acc else n :: acc) [] all) in
+  (* a plain file: no event, and nobody else ever has its name - its per-file matrix and ownership are judged *)
+  let plain pi = match pdo with
+    | None -> true
+    | Some pd ->
+        let n = pd.pd_name0.(pi) in
+        not (List.exists (fun (_, i, _) -> i = pi) pd.pd_events) &&
+        not (List.exists (fun (_, _, n') -> n' = n) pd.pd_events) &&
+        (let k = ref 0 in Array.iter (fun n' -> if n' = n then incr k) pd.pd_name0; !k = 1) in
+  let name_of_pi pi = match pdo with None -> List.nth ids pi | Some pd -> pd.pd_name0.(pi) in
+  let pi_of_name p = match pdo with
+    | None -> index_of p ids
+    | Some pd -> let r = ref (-1) in Array.iteri (fun i n -> if n = p && plain i then r := i) pd.pd_name0; !r in
   (* the extracted history is needed by the extracted oracle (small cases) and by the analysis model *)
   let hopt = if scale && not model then None else Some (fst (parse_hist (field "rhist" c))) in
   let tr = if scale then ntr else (match hopt with Some h -> extracted_truth h g s | None -> ntr) in
   if scale then count "judged_by_native_ground_truth";
   let obs = List.hd (args (field "obs" c)) in
-  let cfree = tr.t_cfree in
+  let pd_ok = (match pdo with Some pd -> tr.t_cfree && npd_ok nh a0 pd | None -> true) in
+  if tr.t_cfree && not pd_ok then count "pathdel_outside_domain";
+  if pdo <> None && tr.t_cfree && pd_ok then (count "pathdel_in_domain"; if has_events && has_merge then count "pathdel_with_event_and_merge");
+  let cfree = tr.t_cfree && pd_ok in
   let hasline = tr.t_hasline in
   let single = tr.t_single in
   let n = tr.t_n in
@@ -304,6 +448,10 @@ let hist_case id (c : sx) =
         else propfail id (Printf.sprintf "pipeline %s (%s) on a conflict-free history" (tag obs) cls)
     | "ok" ->
         let plan = List.map parse_action (args (field "plan" obs)) in
+        (match pdo with
+         | Some pd when cfree && has_events && has_merge && nflag_unset_hit nh a0 pd plan ->
+             known_shape := true; count "pathdel_merge_mode_deletion_with_flag_unset"
+         | _ -> ());
         let planned = List.sort_uniq compare (List.filter_map (function ACommit (cm, _) -> Some (iz cm) | _ -> None) plan) in
         let first_tick0 = (match List.filter_map (function ACommit (cm, _) -> Some cm | _ -> None) plan with
                            | cm :: _ -> tr.t_tick (iz cm) = 0 | [] -> false) in
@@ -334,13 +482,14 @@ let hist_case id (c : sx) =
           if files then begin
             count "files_checked";
             let fh = List.map (fun e -> match e with L (A p :: rows) -> (p, matrix_of_sx rows) | _ -> failwith "fhist") (args (field "fhist" obs)) in
-            let wantpaths = List.map (fun p -> List.nth names p) tr.t_paths_with_lines in
-            List.iter (fun (p, _) -> if not (List.mem p wantpaths) then propfail id ("file matrix for a path without lines: " ^ p)) fh;
+            let wantpaths = List.filter_map (fun pi -> if plain pi then Some (name_of_pi pi) else None) tr.t_paths_with_lines in
+            List.iter (fun (p, _) -> if not (List.mem p wantpaths) && (pdo = None || not (List.mem p names)) then
+                                       propfail id ("file matrix for a path without lines: " ^ p)) fh;
             List.iter (fun p ->
               match List.assoc_opt p fh with
               | None -> propfail id ("no file matrix for path " ^ p)
               | Some m ->
-                  let w = tr.t_file (index_of p names) in
+                  let w = tr.t_file (pi_of_name p) in
                   (match diff_matrix ("file matrix " ^ p) m w with Some t -> propfail id t | None -> ());
                   if List.exists (List.exists (fun v -> v < 0)) m then propfail id ("negative cell in the file matrix " ^ p)) wantpaths;
             if single then begin
@@ -348,7 +497,7 @@ let hist_case id (c : sx) =
                   | L (A p :: cells) -> (p, List.sort compare (List.map (fun cl -> match ints cl with [d; k] -> (d, k) | _ -> failwith "owner") cells))
                   | _ -> failwith "owner") (args (field "owner" obs)) in
               List.iter (fun p ->
-                let truth_ow = tr.t_ownership (index_of p names) in
+                let truth_ow = tr.t_ownership (pi_of_name p) in
                 let want =
                   if people then
                     (* developer d of the history has people index i where dict[i] = d *)
@@ -382,6 +531,7 @@ let hist_case id (c : sx) =
           (match hopt with
           | None -> count "model_not_stepped_large_case"
           | Some _ when not model -> count "model_not_stepped_large_case"
+          | Some _ when has_renames -> count "model_not_stepped_rename_not_modelled"
           | Some h ->
           let gz = zi g and sz = zi s in
           if not (plan_okb h plan) then mismatch id "the run plan is rejected by plan_okb (a commit is not replayed on exactly its ancestry)"
@@ -394,7 +544,18 @@ let hist_case id (c : sx) =
             let npeople = if people then List.length dict else 0 in
             let cf = { c_people = zi npeople; c_files = files } in
             let aidx = List.map (fun d -> zi (if people then index_of (iz d) dict else 0)) h.h_authors in
-            match run_hist cf h aidx plan with
+            let model_run = match pdo with
+              | None -> run_hist cf h aidx plan
+              | Some pd ->
+                  (* the Gallina history with path deletions; its domain predicate must agree with the native one *)
+                  let gpd = { pd_h = h;
+                              pd_names = Array.to_list (Array.mapi (fun i n -> (zi i, zi (index_of n names))) pd.pd_name0);
+                              pd_dels = List.map (fun (d, i, _) -> (zi i, zi d)) pd.pd_events } in
+                  if not (conflict_free_pd gpd) then
+                    failwith (Printf.sprintf "case %d: conflict_free_pd (extracted) rejects a history the native npd_ok accepts" id);
+                  count "pathdel_model_stepped";
+                  run_hist_pd cf gpd aidx plan in
+            match model_run with
             | Panic cls | Err cls -> mismatch id ("model run fails: " ^ pclass_name cls)
             | Ok w ->
                 count "model_run";
